@@ -106,6 +106,7 @@ def ref_valid(coin, txd, idx, spk, amount, flags=STD):
             return S.sighash_bip143(tx, i, code, amt, ht | (fid << 8))
         ck = R.Checker(txd, idx, amount, legacy_f=leg, witness_f=wit)
         ck.forkid = True
+        ck.forkid_keeps_sig = coin == "BCH"      # Bitcoin Cash skips FindAndDelete for fork-id signatures (not known to differ on Bitcoin Gold, whose checker is left as it is)
     elif coin == "GRS":
         # Groestlcoin: single SHA256 everywhere in the signature hash
         ck = R.Checker(txd, idx, amount, legacy_f=lambda tx, i, code, ht: S.sighash_legacy(tx, i, code, ht, h=S.sha256),
@@ -155,7 +156,10 @@ class Scenario(object):
         N, tx = self.N, self.tx
         kw = dict(hash_type=self.ht if ht is None else ht)
         if idxset is not None:
-            kw["tx_in_idx_set"] = set(idxset)
+            # the index collection in the shapes a caller may hold it in, in rotation (deterministic per history)
+            self.nshape = getattr(self, "nshape", -1) + 1
+            lst = sorted(set(idxset))
+            kw["tx_in_idx_set"] = [set(lst), lst, tuple(lst), iter(lst), (i for i in lst), frozenset(lst), dict.fromkeys(lst).keys()][self.nshape % 7]
         if mech == "lookup":
             lookup = N.tx.solve.build_hash160_lookup([self.ds[k] for k in keys])
             tx.sign(lookup, p2sh_lookup=N.tx.solve.build_p2sh_lookup(self.p2s), **kw)
@@ -169,7 +173,12 @@ class Scenario(object):
                 self.keychain.add_p2s_scripts(self.p2s)
                 self.kmaster = N.keys.bip32_seed(b"vf-c05-seed-%d" % self.seed)
                 self.keychain.add_secrets([self.kmaster])
-            self.keychain.add_key_paths(self.kmaster.public_copy(), ["0/%d" % k for k in keys])
+            # both routes that fill the path table, alternating by key number
+            pub = self.kmaster.public_copy()
+            self.keychain.add_key_paths(pub, ["0/%d" % k for k in keys if k % 2 == 0])
+            for k in keys:
+                if k % 2:
+                    self.keychain.add_keys_path([pub], "0/%d" % k)
             if any(k.endswith("_u") or k.endswith("_mixed") for k in self.kinds):
                 # Keychain indexes BIP32 paths by the compressed hash160 only; keys that a puzzle uses in uncompressed
                 # form are handed over as hierarchical sub-keys directly
@@ -361,6 +370,17 @@ class Pairs(_Base):
                         yield dict(coin=coin, seed=self.seed, ht=ht, inputs=inputs, passes=[[keys, "lookup", None]])
                     # one input at a time, second first
                     yield dict(coin=coin, seed=self.seed, ht=1, inputs=inputs, passes=[[keys, "lookup", [1]], [keys, "keychain", [0]], [keys, "wif", None]])
+                    # two parties, each holding the keys of one input only and signing "everything it can": the owner of the
+                    # SECOND input first (the first input is then unsolvable for this signer and must not stop the pass)
+                    ka, kb = list(range(0, na[1])), list(range(4, 4 + nb[1]))
+                    for mech in MECHS:
+                        yield dict(coin=coin, seed=self.seed, ht=1, inputs=inputs, passes=[[kb, mech, None], [ka, mech, None]])
+                        yield dict(coin=coin, seed=self.seed, ht=1, inputs=inputs, passes=[[ka, mech, None], [kb, mech, None]])
+                    # index restrictions in several container shapes (a pass per input, then both)
+                    yield dict(coin=coin, seed=self.seed, ht=1, inputs=inputs,
+                               passes=[[[], "lookup", [0]], [[], "lookup", [1]], [[], "lookup", [0, 1]], [keys, "lookup", [1]], [keys, "lookup", [0]]])
+                    yield dict(coin=coin, seed=self.seed, ht=1, inputs=inputs,
+                               passes=[[[], "lookup", [0]], [[], "lookup", [1]], [[], "lookup", [0, 1]], [[], "lookup", [0]], [keys, "lookup", [0, 1]]])
             inputs = [["p2pkh_u", 1, 1, 0], ["p2sh_ms", 2, 3, 1], ["p2wsh_ms", 2, 2, 4], ["p2sh_p2wpkh", 1, 1, 7]]
             for ht in HTS:
                 for mech in MECHS:
